@@ -4,6 +4,7 @@ import (
 	"bytes"
 	"encoding/json"
 	"fmt"
+	"io"
 
 	"github.com/zclconf/go-cty/cty"
 )
@@ -41,7 +42,10 @@ func ImpliedType(buf []byte) (cty.Type, error) {
 		return cty.NilType, err
 	}
 
-	if dec.More() {
+	// Decoder.More is not usable here: it answers false when the next
+	// character is a stray closing bracket. Only the end of the input is
+	// acceptable after the top-level value.
+	if _, err := dec.Token(); err != io.EOF {
 		return cty.NilType, fmt.Errorf("extraneous data after JSON object")
 	}
 
